@@ -733,10 +733,12 @@ impl<'a> G<'a> {
                     } else {
                         let items: Vec<Expr> = (0..self.rng.below(4)).map(|_| Expr::Int(self.rng.below(9) as i64)).collect();
                         let arr = if self.pm(self.p.errors) {
-                            if self.rng.chance(1, 2) {
-                                Expr::Int(7)
-                            } else {
-                                self.bad_expr()
+                            match self.rng.below(4) {
+                                0 => Expr::Int(7),
+                                // not a collection either, and "empty" in the sense of rfsm-expression
+                                1 if self.p.dm == Dm::Rfsm => Expr::Str(String::new()),
+                                1 => Expr::Int(0),
+                                _ => self.bad_expr(),
                             }
                         } else {
                             Expr::Array(items)
@@ -759,9 +761,23 @@ impl<'a> G<'a> {
                             }
                         }
                         body.extend(self.content(depth + 1, 1));
-                        if live {
+                        // the item variable is one that only <foreach> declares (also when the array is empty): it
+                        // can be assigned afterwards
+                        if !live && self.p.dm == Dm::Rfsm && matches!(arr, Expr::Array(_)) && self.rng.chance(1, 5) {
+                            self.mcount += 1;
+                            let tag2 = format!("fj{}", self.mcount);
+                            out.push(Exec::Foreach { array: arr, item: "jt".into(), index: Some("ix".into()), body });
+                            out.push(Exec::Assign { loc: "jt".into(), expr: Expr::Int(7) });
+                            Exec::Mark(tag2, vec![Expr::Var("jt".into())])
+                        } else if live {
                             out.push(Exec::Assign { loc: "q".into(), expr: arr });
-                            Exec::Foreach { array: Expr::Var("q".into()), item: "it".into(), index: Some("ix".into()), body }
+                            // the item variable is a copy: assigning to it leaves the array alone (seen after the loop)
+                            if self.rng.chance(1, 2) {
+                                body.push(Exec::Assign { loc: "it".into(), expr: Expr::Add(Box::new(Expr::Var("it".into())), Box::new(Expr::Int(100))) });
+                            }
+                            out.push(Exec::Foreach { array: Expr::Var("q".into()), item: "it".into(), index: Some("ix".into()), body });
+                            self.mcount += 1;
+                            Exec::Mark(format!("fq{}", self.mcount), vec![Expr::Var("q".into()), Expr::Var("it".into())])
                         } else {
                             Exec::Foreach { array: arr, item: "it".into(), index: Some("ix".into()), body }
                         }
@@ -773,7 +789,21 @@ impl<'a> G<'a> {
                 }
                 5 => {
                     let loc = ["_sessionid", "_name", "_event", "_ioprocessors", "_event.name", "_event.type", "_event.data"];
-                    Exec::Assign { loc: self.rng.pick(&loc[..]).to_string(), expr: Expr::Int(99) }
+                    if self.rng.chance(1, 4) {
+                        // a system variable as the item (or index) of a <foreach>: not a legal location either
+                        // (not _event: before the first event it is not bound yet, what a write does then is nobody's business)
+                        let sys = *self.rng.pick(&["_sessionid", "_name", "_ioprocessors"]);
+                        self.mcount += 1;
+                        let body = vec![Exec::Mark(format!("fs{}", self.mcount), vec![])];
+                        let items = vec![Expr::Int(1), Expr::Int(2)];
+                        if self.rng.chance(1, 3) {
+                            Exec::Foreach { array: Expr::Array(if self.rng.chance(1, 3) { vec![] } else { items }), item: "it".into(), index: Some(sys.to_string()), body }
+                        } else {
+                            Exec::Foreach { array: Expr::Array(if self.rng.chance(1, 3) { vec![] } else { items }), item: sys.to_string(), index: Some("ix".into()), body }
+                        }
+                    } else {
+                        Exec::Assign { loc: self.rng.pick(&loc[..]).to_string(), expr: Expr::Int(99) }
+                    }
                 }
                 _ => {
                     if self.pm(self.p.errors) {
